@@ -1,7 +1,7 @@
 PROP = {
     "modules": ["Discv5Model.Props.C14"],
     "lemma_modules": ["Discv5Model.Proofs.ServiceServe"],
-    "engines": [{"name": "service", "quick": 150, "thorough": 5000}],
+    "engines": [{"name": "service", "quick": 150, "thorough": 15000}],
     "rule": "service engine, profile C14: one Service whose table is mined to hold 6..40 records at distances 251..256 "
             "with encoded sizes from ~134 up to the 300-byte limit (own record padded too), max_nodes_response in "
             "{1,3,16,40,125}; FINDNODE requests with distance lists empty / [0] / duplicates / unsorted / out of range / "
